@@ -163,6 +163,21 @@ def run_case(desc):
             annots[0, 0] = True
     if is_iet and amode == "bool":
         annots, amode = None, "none"
+    if e is not None and e.domain is not None:
+        # documented / third-party domain of the wrapped strategy (e.g. GaussianNB on coinciding rows), judged on the
+        # sample-level view the wrapper hands to it
+        class _View:
+            pass
+        v = _View()
+        v.X, v.lab, v.data, v.entry = X, ~np.isnan(Y).all(axis=1), None, e
+        v.n_labeled = int(v.lab.sum())
+        v.n_classes_obs = len(set(Y[~np.isnan(Y)].tolist()))
+        try:
+            why = e.domain(v)
+        except Exception:
+            why = None
+        if why:
+            return {"status": "skip", "skip_reason": why}
     M = availability(Y, cmode, cands, amode, annots, n_rows)
     n_pairs = int(M.sum())
     if n_pairs == 0:
